@@ -36,8 +36,8 @@ RULE = ("strings: sentences derived from the grammar file by a coverage-guided r
         "to length 6 and their one-character edits, character soups over the grammar's alphabet plus foreign characters; each string is one "
         "'program': token sequence and accept/reject verdict compared between the shipped artefacts and the grammar-derived reference; "
         "non-trivial = string of >=2 tokens (lexer) / sequence with a verdict (parser); distinct by SHA-1 of the string")
-BUDGET = {"quick": 60000, "thorough": 600000}
-MIN_NONTRIVIAL = {"quick": 15000, "thorough": 150000}
+BUDGET = {"quick": 120000, "thorough": 900000}
+MIN_NONTRIVIAL = {"quick": 30000, "thorough": 200000}
 REQUIRED_TAGS = ["derived-sentence", "atn-derived-sentence", "class-substitution", "mutated-sentence", "lexer-rule-string", "lexer-rule-edit", "char-soup", "accepted", "rejected", "cpp-atn-lexer", "rtn-recogniser"]
 ASSUMPTIONS = ["ANTLR lexer semantics for a grammar without modes/predicates/actions: longest match, earliest rule wins ties (bbverif/g4ref.py)",
                "the generated C++ rule functions are not executed (no ANTLR C++ runtime/tool offline); their skeleton is compared textually with the Python target's",
@@ -637,24 +637,60 @@ class Deriver:
     def cost(self, rhs):
         return sum(self.minlen.get(s, 1) for s in rhs)
 
-    def derive(self, sym, budget):
+    def derive(self, sym, budget, depth=0):
+        """Random derivation of `sym`; `budget` is a soft target for the number of tokens.  Productions not
+        used yet are preferred; when the budget is spent (or the derivation is deep) a cheapest production is taken."""
         g = self.g
         if sym not in g.prods:
             return [sym]
         rs = g.prods[sym]
-        cands = [(i, r) for i, r in enumerate(rs) if self.cost(r) <= max(budget, self.minlen[sym])]
-        # prefer productions not used yet, then random
-        fresh = [c for c in cands if (sym, c[0]) not in self.used]
-        i, r = self.r.choice(fresh if fresh and self.r.random() < 0.7 else cands)
+        if (budget <= self.minlen[sym] and (depth > 14 or self.r.random() < 0.7)) or depth > 40:
+            best = min(self.cost(r) for r in rs)
+            cands = [(i, r) for i, r in enumerate(rs) if self.cost(r) == best]
+        else:
+            cands = [(i, r) for i, r in enumerate(rs) if self.cost(r) <= budget + 4] or list(enumerate(rs))
+            if budget >= 3 and len(cands) > 1 and self.r.random() < 0.8:
+                # keep loops and options going while there is budget left
+                nonempty = [c for c in cands if c[1]]
+                cands = nonempty or cands
+        # productions used less often so far are more likely (balances the alternatives of every rule)
+        ws = [1.0 / (1 + self.used.get((sym, c[0]), 0)) ** 1.5 for c in cands]
+        i, r = self.r.choices(cands, weights=ws)[0]
         self.used[(sym, i)] = self.used.get((sym, i), 0) + 1
+        rest = max(0, budget - self.cost(r))
+        # hand the spare budget to the right-hand-side symbols in random order; loops over a single token get little
+        extras = [0] * len(r)
+        order = list(range(len(r)))
+        self.r.shuffle(order)
+        for k in order:
+            if rest <= 0:
+                break
+            sk = r[k]
+            if sk not in g.prods:
+                continue
+            e = self.r.randint(0, rest)
+            if self._token_loop(sk):
+                e = min(e, self.r.choice([0, 0, 1, 2]))
+            extras[k] = e
+            rest -= e
+        if rest > 0:
+            nts = [k for k in order if r[k] in g.prods and not self._token_loop(r[k])]
+            if nts:
+                extras[self.r.choice(nts)] += rest
         out = []
-        rest = budget - self.cost(r)
-        for k, s in enumerate(r):
-            share = self.minlen.get(s, 1) + (self.r.randint(0, max(0, rest)) if rest > 0 else 0)
-            sub = self.derive(s, share)
-            rest -= max(0, len(sub) - self.minlen.get(s, 1))
-            out.extend(sub)
+        for k, sk in enumerate(r):
+            out.extend(self.derive(sk, self.minlen.get(sk, 1) + extras[k], depth + 1))
         return out
+
+    def _token_loop(self, nt):
+        """nt -> () | nt T   or   nt -> T | nt T   with T a single token"""
+        rs = self.g.prods.get(nt)
+        if not rs or len(rs) != 2:
+            return False
+        for r in rs:
+            if len(r) == 2 and r[0] == nt and r[1] not in self.g.prods:
+                return True
+        return False
 
 
 def enumerate_sentences(g, max_tokens, cap):
